@@ -104,7 +104,7 @@ theorem init_lm (inp : RunInput) (nT : Nat) : LM inp nT (init inp) := by
   intro a ha; simp [stOf, init] at ha
 
 /-- one transition: `hsj` is the structural step of `Proofs/C11JustStep.lean` -/
-theorem lm_step {inp : RunInput} {n : Nat} (hb : BoundedP inp n) {s s' : Sys} (c : Ctx inp s) (lm : LM inp n s)
+theorem lm_step {inp : RunInput} [NoFailDeliver inp] {n : Nat} (hb : BoundedP inp n) {s s' : Sys} (c : Ctx inp s) (lm : LM inp n s)
     (sh : Shape inp s s')
     (hsj : ∀ J G, Hyp inp J G s → SJ inp J G s → SJ inp J G s') : LM inp n s' := by
   obtain ⟨⟨new, hev, hT⟩, gm, rf⟩ := stepInfo c n sh
@@ -119,7 +119,7 @@ theorem lm_step {inp : RunInput} {n : Nat} (hb : BoundedP inp n) {s s' : Sys} (c
   rintro ⟨e, he, ht⟩
   exact hT t d hd (setupOK_getStatus hok) ⟨e, (mem_obsOf.mp he).1, ht⟩
 
-theorem reach_lm {inp : RunInput} {n : Nat} (hb : BoundedP inp n) (hser : inp.runner = .serial) {s : Sys}
+theorem reach_lm {inp : RunInput} [NoFailDeliver inp] {n : Nat} (hb : BoundedP inp n) (hser : inp.runner = .serial) {s : Sys}
     (h : Reach inp s) : LM inp n s := by
   induction h with
   | init => exact init_lm inp n
@@ -131,7 +131,7 @@ theorem reach_lm {inp : RunInput} {n : Nat} (hb : BoundedP inp n) (hser : inp.ru
     | take w => cases hs
     | done w => cases hs
 
-theorem preach_lm {inp : RunInput} {n : Nat} (hb : BoundedP inp n) (hpar : inp.runner ≠ .serial) {s : Sys}
+theorem preach_lm {inp : RunInput} [NoFailDeliver inp] {n : Nat} (hb : BoundedP inp n) (hpar : inp.runner ≠ .serial) {s : Sys}
     (h : PReach inp s) : LM inp n s := by
   induction h with
   | init => exact init_lm inp n
